@@ -43,6 +43,7 @@ type Config struct {
 	I8Type                   bool // the base type i8 (alias of byte in Thrift) as field / argument / return type
 	GeneratorDerivedNames    bool // type names shaped like the generators' own derived names: NewX, XArgs, XResult
 	ConstMapNonStringKeys    bool // every file gets a constant map<i32,string> / map<bool,..> with entries
+	DefaultsFromConstants    bool // field defaults that name a constant of the same file (container and base types)
 }
 
 // keyword lists of the stress classes TargetKeywordNames / GeneratorInternalNames
@@ -405,6 +406,35 @@ func (g *gen) genFile(f *File, root bool) {
 			c := g.genConst()
 			g.consts[f] = append(g.consts[f], c)
 			add(&Decl{Const: c})
+		}
+	}
+	if cfg.DefaultsFromConstants {
+		// a list, a map and an i32 constant per file, and struct fields of
+		// exactly those types whose default is the constant's name
+		cs := []*Const{
+			{Name: g.types.make(3, 2), Type: ListOf(T("i32")), Value: []interface{}{int64(2), int64(3)}},
+			{Name: g.types.make(3, 2), Type: MapOf(T("string"), T("i32")), Value: []KV{{"a", int64(1)}}},
+			{Name: g.types.make(3, 2), Type: SetOf(T("string")), Value: []interface{}{"x"}},
+			{Name: g.types.make(3, 2), Type: T("i32"), Value: int64(7)},
+		}
+		for _, c := range cs {
+			g.consts[f] = append(g.consts[f], c)
+			add(&Decl{Const: c})
+		}
+		for _, st := range f.Structs() {
+			if st.Kind == KindUnion || g.rng.Intn(2) == 0 {
+				continue
+			}
+			id := 0
+			for _, fl := range st.Fields {
+				if fl.ID > id {
+					id = fl.ID
+				}
+			}
+			c := cs[g.rng.Intn(len(cs))]
+			req := []string{ReqDefault, ReqOptional, ReqRequired}[g.rng.Intn(3)]
+			st.Fields = append(st.Fields, &Field{ID: id + 1, Name: "zzFromConst", Req: req, Type: c.Type.Clone(), Default: Ident(c.Name)})
+			g.feat("default_from_named_constant")
 		}
 	}
 	nsvc := g.rng.Intn(cfg.MaxServices + 1)
